@@ -311,6 +311,24 @@ def check_compat(case, ctx):
         ctx.event("unspecified(same location set, different description)")
 
 
+@st.composite
+def compat_large_case(draw):
+    """rasters in projected coordinates (millions of metres): same shape and spacing, shifted by a fraction of a cell"""
+    dim = draw(st.sampled_from([1, 2, 2, 3]))
+    dims = [draw(st.integers(2, 5)) for _ in range(dim)]
+    sp = draw(st.sampled_from([25.0, 10.0, 100.0]))
+    origin = [draw(st.sampled_from([4400000.0, 5600000.0, 320000.0])) for _ in range(dim)]
+    k = draw(st.integers(0, dim - 1))
+    shift = draw(st.sampled_from([0.0, 0.0, 0.3, 0.6, 1.0, -0.6]))
+    base = {"cls": "uni", "dims": dims, "spacing": [sp] * dim, "origin": origin, "inc": [True] * dim, "order": "F",
+            "rev": False, "loc": draw(st.sampled_from(["CELLS", "POINTS"]))}
+    lens = dims
+    a = hg.same_geometry_layout(base, draw(st.sampled_from("CF")), draw(st.booleans()), [draw(st.booleans()) and n > 1 for n in lens])
+    b2 = dict(base, origin=[o + (sp * shift if i == k else 0.0) for i, o in enumerate(origin)])
+    b = hg.same_geometry_layout(b2, draw(st.sampled_from("CF")), draw(st.booleans()), [draw(st.booleans()) and n > 1 for n in lens])
+    return {"a": a, "b": b, "kind": "large-shift" if shift else "large-same"}
+
+
 def parts():
     return [
         Part("canon_enum", check_canon, enumerate=lambda tier: hg.enum_layouts(), exhaustive=True),
@@ -318,4 +336,5 @@ def parts():
         Part("pairs_enum", check_pair, enumerate=enum_pairs, exhaustive=True),
         Part("pairs_gen", check_pair, strategy=pair_case(), budget={"quick": 1200, "thorough": 30000}),
         Part("compat_gen", check_compat, strategy=compat_case(), budget={"quick": 1500, "thorough": 30000}),
+        Part("compat_large", check_compat, strategy=compat_large_case(), budget={"quick": 300, "thorough": 6000}),
     ]
